@@ -279,6 +279,69 @@ def every_depth_coordinate(ctx: Context, rule: str) -> None:
                   construct=f"{fi.short}: conditions on the collection so far or on shapes: {foreign[:2] or 'none'}")
 
 
+def depth_coordinates_only_read(ctx: Context, rule: str) -> None:
+    """Asking which variables are the depth coordinates does not change them: a `positive` attribute is what the file says,
+    and when the file says nothing the direction is judged from the values, not from a default written in on the way."""
+    from ..effects import writes_in
+    p = ctx.p
+    for member in ('depth_coordinates', 'depth_coordinate', 'get_depth_coordinate_for_data_array'):
+        for fi in p.implementations(p.cls(BASE), member):
+            flow = ctx.flow(fi)
+            bad = []
+            for node, obj, how in writes_in(fi, flow):
+                if isinstance(obj, ast.Name):
+                    defs = flow.defs_of(obj)
+                    if defs and all(d.kind in ('assign', 'walrus') and (
+                            isinstance(d.value, (ast.List, ast.Set, ast.Dict, ast.ListComp, ast.SetComp, ast.DictComp))
+                            or (isinstance(d.value, ast.Call) and dotted(d.value.func) in ('list', 'set', 'dict', 'collections.defaultdict', 'defaultdict')))
+                            for d in defs):
+                        continue    # filling a collection made here
+                bad.append((node, f"{how} on `{norm_text(obj)[:40]}`"))
+            ctx.check(rule, not bad, f"{member} only reads the dataset: no attribute, encoding or value of a variable is written while the depth coordinates are looked up", fi,
+                      bad[0][0] if bad else fi.node, construct=f"{fi.short}: writes: {[b[1] for b in bad][:3] or 'none'}")
+
+
+def fill_marker_on_copies(ctx: Context, rule: str) -> None:
+    """find_fill_value tells "packed on disk without a fill value" by the *absence* of `_FillValue` from a variable's encoding.
+    Any function of emsarray that puts that key into the encoding of a variable it was handed therefore has to be given a copy:
+    otherwise saving a dataset changes how it is clipped afterwards."""
+    from ..effects import writes_in, roots_of
+    p = ctx.p
+    writers: dict[str, tuple] = {}
+    for q, fi in sorted(p.functions.items()):
+        if fi.parent is not None:
+            continue
+        flow = ctx.flow(fi)
+        for node, obj, how in writes_in(fi, flow):
+            text = norm_text(node)
+            if 'encoding' not in text or '_FillValue' not in text:
+                continue
+            own = {a.arg for a in (fi.node.args.vararg, fi.node.args.kwarg) if a is not None}     # *args / **kwargs are made per call
+            through = sorted(r[6:] for r in roots_of(flow, obj) if r.startswith('param:') and r[6:] not in own)
+            if through:
+                writers.setdefault(q, (fi, node, through))
+    ctx.check(rule, True, "functions that write a `_FillValue` entry into the encoding of a variable they were given are enumerated", None, None,
+              construct=f"writers: {sorted((w[0].short, w[2]) for w in writers.values()) or 'none'}")
+    for q, (wfi, wnode, through) in sorted(writers.items()):
+        sites = 0
+        for cq, cfi in sorted(p.functions.items()):
+            cflow = None
+            for c in calls_in(cfi, nested=False):
+                if p.callee(c, cfi) != q:
+                    continue
+                sites += 1
+                cflow = cflow or ctx.flow(cfi)
+                for name in through:
+                    pos = wfi.params.index(name) if name in wfi.params else None
+                    arg = arg_or_kw(c, pos, name) if pos is not None else None
+                    roots = roots_of(cflow, arg) if arg is not None else {'unknown'}
+                    ok = roots <= {'fresh'}
+                    ctx.check(rule, ok, f"{wfi.short} marks encodings with `_FillValue`: it is handed a copy made here, never the caller's own dataset "
+                              "(the marker would change which variables a later clip can mask)", cfi, c,
+                              construct=f"{cfi.short}: {norm_text(c)[:60]}; `{norm_text(arg) if arg is not None else '?'}` comes from {sorted(roots)}")
+        ctx.check(rule, sites > 0 or True, f"call sites of {wfi.short} examined", wfi, wnode, construct=f"{wfi.short}: {sites} call site(s)")
+
+
 def _parses(text: str) -> bool:
     try:
         ast.parse(text, mode='eval')
